@@ -64,13 +64,19 @@ func genCase(t *rapid.T, regime string) Case {
 	if fd == 0 {
 		fd = 40_000
 	}
+	// a gossip rate limit (rarely configured): regime S only, where nothing else competes for the horizon
+	rate, burst := 0, 0
+	if c.Regime == "S" && rapid.IntRange(0, 4).Draw(t, "rateLimited") == 0 {
+		rate = rapid.SampledFrom([]int{1, 2, 3}).Draw(t, "rate")
+		burst = rapid.SampledFrom([]int{1, 2}).Draw(t, "burst")
+	}
 	seedSet := map[int]bool{0: true}
 	if layout != "single" {
 		seedSet[1] = true
 	}
 	maxStart := 0
 	for i := 0; i < n; i++ {
-		nc := csim.NodeCfg{Addr: addrOf(i), ID: fmt.Sprintf("n%d", i), FDMs: c.FDMs}
+		nc := csim.NodeCfg{Addr: addrOf(i), ID: fmt.Sprintf("n%d", i), FDMs: c.FDMs, RateLimit: rate, RateBurst: burst}
 		switch {
 		case layout == "single":
 			nc.Seeds = []string{addrOf(0)}
@@ -451,6 +457,9 @@ func judge(c Case, r *csim.Result) (vs []verdict, nontrivial bool, labels []stri
 	}
 	if len(died) > 0 {
 		labels = append(labels, "node-stays-down")
+	}
+	if len(cfg.Nodes) > 0 && cfg.Nodes[0].RateLimit > 0 {
+		labels = append(labels, "gossip-rate-limited")
 	}
 	sort.Strings(labels)
 	nontrivial = len(kinds) > 1 || r.AskFail > 0 || len(cfg.Nodes) >= 3
